@@ -2,7 +2,7 @@
    Property theorems only: each is closed by [exact] of a lemma of
    ProofsA/B/C or Bridge and followed by Print Assumptions. *)
 From Coq Require Import String List ZArith NArith Bool Permutation.
-From VF.C06 Require Import Model ProofsA ProofsB ProofsC ProofsD Bridge.
+From VF.C06 Require Import Model ProofsA ProofsB ProofsC ProofsD ProofsE Bridge.
 From VF.gen Require Import C06MapRanges.
 Import ListNotations.
 Local Open Scope Z_scope.
@@ -140,6 +140,90 @@ Proof. exact (conj process_block_deterministic builder_validator). Qed.
 Print Assumptions C06_full_holds.
 
 (* ---------------------------------------------------------------------- *)
+(* 7. forks.  A branch of any length built block after block by the builder
+      (every block on the state its parent left; the builder's own blocks are in
+      its transaction lookup) and imported by another node
+      - block after block with insertChain (ordinary import of the branch, and
+        the re-import that follows a side-chain verification): grow = true;
+      - by verifyAllSideChainBlocks (blocks stored without state, lookup index
+        unchanged): grow = false.
+      The executing node's database enters through the lookup index handed to
+      the period-end hook; `period_end_framed` says the hook reads it at the
+      pending hashes of the staking records only. *)
+
+(* full statement for the side-chain verification: a node that shares the
+   builder's lookup at the fork point accepts every built branch *)
+Definition C06_fork_side_chain_full : Prop :=
+  forall (St tx lg : Type) exec price resolve val_exists penalize max_expired view apply_rewards
+         v5 threshold coeff ratios freq commit receipt_hash bloom tx_hash pending period_end_r,
+    period_end_framed St tx lg pending period_end_r ->
+  forall sc sc' m m' ins ix st number bs,
+    sched_valid sc -> sched_valid sc' -> memo_valid resolve m -> memo_valid resolve m' ->
+    build_fork St tx lg exec price resolve val_exists penalize max_expired view apply_rewards
+               v5 threshold coeff ratios freq commit receipt_hash bloom tx_hash period_end_r
+               ix sc m st number ins = Done bs ->
+    import_chain St tx lg exec price resolve val_exists penalize max_expired view apply_rewards
+                 v5 threshold coeff ratios freq commit receipt_hash bloom tx_hash period_end_r
+                 false ix sc' m' st (fork_headers St tx lg bs) = Some (fork_results St tx lg bs).
+
+(* 7a. outside the open finding (fork_ok: at every period-end block of the branch
+       the importing node's index and the builder's resolve the pending hashes
+       alike) every block of the branch is accepted with the builder's state and
+       receipts, in either import mode, from any index of the importing node *)
+Theorem C06_fork_import_holds_outside :
+  forall (St tx lg : Type) exec price resolve val_exists penalize max_expired view apply_rewards
+         v5 threshold coeff ratios freq commit receipt_hash bloom tx_hash pending period_end_r,
+    period_end_framed St tx lg pending period_end_r ->
+  forall grow sc sc' m m' ins ix ixn st number bs,
+    sched_valid sc -> sched_valid sc' -> memo_valid resolve m -> memo_valid resolve m' ->
+    build_fork St tx lg exec price resolve val_exists penalize max_expired view apply_rewards
+               v5 threshold coeff ratios freq commit receipt_hash bloom tx_hash period_end_r
+               ix sc m st number ins = Done bs ->
+    fork_ok St tx lg exec price resolve val_exists penalize max_expired view apply_rewards
+            v5 threshold coeff ratios freq tx_hash pending grow ixn ix sc' m' st bs ->
+    import_chain St tx lg exec price resolve val_exists penalize max_expired view apply_rewards
+                 v5 threshold coeff ratios freq commit receipt_hash bloom tx_hash period_end_r
+                 grow ixn sc' m' st (fork_headers St tx lg bs) = Some (fork_results St tx lg bs).
+Proof. exact fork_import. Qed.
+Print Assumptions C06_fork_import_holds_outside.
+
+(* 7b. the insertChain import of a whole branch (canonical directly, or the
+       re-import after the verification) is unconditional when the lookups agree
+       at the fork point *)
+Theorem C06_fork_canonical_import :
+  forall (St tx lg : Type) exec price resolve val_exists penalize max_expired view apply_rewards
+         v5 threshold coeff ratios freq commit receipt_hash bloom tx_hash pending period_end_r,
+    period_end_framed St tx lg pending period_end_r ->
+  forall sc sc' m m' ins ix ixn st number bs,
+    sched_valid sc -> sched_valid sc' -> memo_valid resolve m -> memo_valid resolve m' ->
+    (forall x, ixn x = ix x) ->
+    build_fork St tx lg exec price resolve val_exists penalize max_expired view apply_rewards
+               v5 threshold coeff ratios freq commit receipt_hash bloom tx_hash period_end_r
+               ix sc m st number ins = Done bs ->
+    import_chain St tx lg exec price resolve val_exists penalize max_expired view apply_rewards
+                 v5 threshold coeff ratios freq commit receipt_hash bloom tx_hash period_end_r
+                 true ixn sc' m' st (fork_headers St tx lg bs) = Some (fork_results St tx lg bs).
+Proof. exact fork_canonical_import. Qed.
+Print Assumptions C06_fork_canonical_import.
+
+(* 7c. the open finding: the side-chain verification refuses a branch whose
+       period-end block needs a staking transaction of an earlier block of the same
+       branch (witness ProofsE.ForkWitness; on the real code corpus/C06/w4) *)
+Lemma fork_side_chain_refuted : ~ C06_fork_side_chain_full.
+Proof.
+  intro H. destruct ForkWitness.branch_side_chain_refused as (bs & Hb & Hr).
+  assert (Hm : memo_valid ForkWitness.resolve (fun _ => None)) by (intros e a E; discriminate).
+  unfold ForkWitness.build in Hb. unfold ForkWitness.import in Hr.
+  rewrite (H _ _ _ _ _ _ _ _ _ _ _ _ _ _ _ _ _ _ _ _ _ _ ForkWitness.framed
+             id_sched rev_sched (fun _ => None) (fun _ => None) _ _ _ _ bs
+             id_sched_valid rev_sched_valid Hm Hm Hb) in Hr.
+  discriminate.
+Qed.
+Theorem C06_fork_side_chain_refuted : ~ C06_fork_side_chain_full.
+Proof. exact fork_side_chain_refuted. Qed.
+Print Assumptions C06_fork_side_chain_refuted.
+
+(* ---------------------------------------------------------------------- *)
 (* non-vacuity *)
 
 (* a reward computation with three online roles where both schedules are
@@ -199,3 +283,23 @@ Example C06_nonvacuous_object_cache :
    sr_dirty carried = []).
 Proof. exact (conj AliasWitness.sound_variant_agrees AliasWitness.alias_variant_depends_on_cache). Qed.
 Print Assumptions C06_nonvacuous_object_cache.
+
+(* a branch of two blocks from block 2 with a staking transaction and a confirmed
+   evidence in its first block, a second transaction and evidence at the period end:
+   built, accepted by the insertChain import with the builder's states; the same
+   transactions placed in the period-end block: accepted by the side-chain
+   verification as well *)
+Example C06_nonvacuous_fork :
+  period_end_framed ForkWitness.St ForkWitness.tx unit ForkWitness.pending ForkWitness.period_end_r /\
+  (exists bs, ForkWitness.build ForkWitness.branch = Done bs /\ length bs = 2%nat /\
+              map (fun b => length (h_slash (b_header _ _ _ b))) bs = [1%nat; 1%nat] /\
+              ForkWitness.import true ForkWitness.ix0 (fork_headers _ _ _ bs) = Some (fork_results _ _ _ bs) /\
+              map (fun b => snd (b_state _ _ _ b)) bs = [1000%N; 2002%N]) /\
+  (exists bs, ForkWitness.build ForkWitness.branch_late = Done bs /\
+              ForkWitness.import false ForkWitness.ix0 (fork_headers _ _ _ bs) = Some (fork_results _ _ _ bs) /\
+              map (fun b => snd (b_state _ _ _ b)) bs = [1000%N; 2002%N]).
+Proof.
+  split; [exact ForkWitness.framed|].
+  split; [exact ForkWitness.branch_canonical_accepted | exact ForkWitness.branch_late_side_chain_accepted].
+Qed.
+Print Assumptions C06_nonvacuous_fork.
